@@ -1,5 +1,6 @@
 import AikenVerif.Lemmas.MatchCheck
 import AikenVerif.Lemmas.MatchTree
+import AikenVerif.Lemmas.ListSwitch
 /-!
 # C07 — Pattern matching is exhaustive when accepted and first-match when run
 
@@ -288,6 +289,46 @@ theorem tree_is_firstMatch_rows (sel : IMatrix → Nat) (M : IMatrix) (vs : List
     (hw : ∀ r ∈ M, r.2.length = vs.length) :
     evalTree (build sel M) vs = firstMatchRows M vs :=
   tree_correct sel M vs hw
+
+/-! ## the list-length dispatch of the real decision-tree compiler (fixed behaviour)
+
+`AikenVerif/Model/ListSwitch.lean` mirrors the fold of `TreeGen::do_build_tree` that builds one
+sub-matrix per `CaseTest::List(n)` / `ListWithTail(n)` and the selection made by
+`CodeGenerator::handle_decision_tree` for a list of length `L`, as repaired by
+`proposed_fixes/C07-list-tail-case-order.diff` (cases picked by length). -/
+
+open AikenVerif.ListSwitch in
+/-- with the fix, a list of length `L` is handled by exactly the clauses whose list pattern
+admits length `L`, in source order — so the first matching clause is never lost by the dispatch -/
+theorem list_dispatch_fixed_correct (rows : List ListSwitch.Row) (L : Nat) :
+    dispatchFixed rows L = (rows.filter (fun r => r.1.admits L)).map (·.2) :=
+  dispatchFixed_eq rows L
+
+open AikenVerif.ListSwitch in
+/-- in particular the first clause offered to a list of length `L` is the first one, in source
+order, whose list shape admits `L` -/
+theorem list_dispatch_fixed_head (rows : List ListSwitch.Row) (L : Nat) :
+    (dispatchFixed rows L).head? = (rows.find? (fun r => r.1.admits L)).map (·.2) := by
+  rw [dispatchFixed_eq]
+  induction rows with
+  | nil => rfl
+  | cons r rows ih =>
+    by_cases h : r.1.admits L = true
+    · simp [List.filter_cons, List.find?_cons, h]
+    · simp only [Bool.not_eq_true] at h
+      simp [List.filter_cons, List.find?_cons, h, ih]
+
+open AikenVerif.ListSwitch in
+/-- the selection before the fix (`tail_cases.last()`, first tail case with `i ≤ index`) loses
+the first clause: `when xs is { [_, _, ..] -> 0  [_, ..] -> 1  [] -> 2 }` on a 3-element list is
+sent to clause 1 only; and `[1, ..] / [_, 5, ..] / [_, _, 7, ..] / _` on a 2-element list never
+sees clause 1.  (These are the two failures the run-time harness found on the real code.) -/
+example :
+    dispatchUnfixed [(.tail 2, 0), (.tail 1, 1), (.list 0, 2)] 3 = [1] ∧
+    dispatchFixed [(.tail 2, 0), (.tail 1, 1), (.list 0, 2)] 3 = [0, 1] ∧
+    dispatchUnfixed [(.tail 1, 0), (.tail 2, 1), (.tail 3, 2), (.wild, 3)] 2 = [0, 3] ∧
+    dispatchFixed [(.tail 1, 0), (.tail 2, 1), (.tail 3, 2), (.wild, 3)] 2 = [0, 1, 3] := by
+  decide
 
 /-! ## the hypotheses are satisfiable on a non-trivial instance -/
 
